@@ -20,6 +20,8 @@ ID = "C20"
 TOKENS = [
     '"', "'", '"""', "'''", "\\", "*/", "/*", "//", "<", ">", "&", "]]>", "--", "`", "${",
     "{@", "@param", "#", "%", "\u00a0", "\u2028", "}", "{", "<!--", "-->", "</summary>", "\\n",
+    # RST inline literals: another path through the description renderers
+    "``List<T>``", "``a&b``", "``*/``", "``\"\"\"``", "``${x}``",
 ]
 
 META = {
@@ -35,7 +37,7 @@ META = {
     ),
     "rule": (
         "tokens {\" ' \"\"\" ''' \\ */ /* // < > & ]]> -- ` ${ {@ @param # % NBSP U+2028 "
-        "} { <!-- --> </summary> \\n}; sites {class docstring, property docstring, "
+        "} { <!-- --> </summary> \\n, and the RST inline literals ``List<T>`` ``a&b`` ``*/`` ``\"\"\"`` ``${x}``}; sites {class docstring, property docstring, "
         "enumeration docstring, literal docstring, method-free verification docstring, "
         "invariant message, constant description, constant string value, enumeration "
         "literal value, meta-model docstring}; positions {start, middle, end}; only "
@@ -49,7 +51,7 @@ META = {
         "which generated code"
     ),
     "bounds": {
-        "quick": "1 token at the end of every site (270 cases) and the 10 dangerous tokens at start / middle of 3 sites",
+        "quick": "1 token (32, incl. 5 RST inline literals) at the end of every site and the 10 dangerous tokens at start / middle of the class docstring",
         "thorough": "1 token at all sites and positions; all pairs at the end of every site, pairs of the 10 dangerous tokens at start / middle",
     },
     "assumptions": [
@@ -135,7 +137,7 @@ def cases(tier: str) -> Iterator[Tuple[str, Tuple[str, ...], str]]:
         for site in SITES:
             for token in TOKENS:
                 yield site, (token,), "end"
-        for site in END_ONLY_SITES:
+        for site in END_ONLY_SITES[:1]:
             for position in ("start", "middle"):
                 for token in DANGEROUS:
                     yield site, (token,), position
@@ -547,6 +549,8 @@ def token_class(tokens: Sequence[str]) -> str:
             "&": "amp", "]]>": "cdata-end", "--": "dashes", "`": "backtick", "${": "dollar-brace",
             "{@": "brace-at", "@param": "at-param", "#": "hash", "%": "percent", "\u00a0": "nbsp",
             "\u2028": "line-separator", "}": "rbrace", "{": "lbrace", "<!--": "xml-comment-start",
+            "``List<T>``": "literal-lt-gt", "``a&b``": "literal-amp", "``*/``": "literal-comment-end",
+            "``\"\"\"``": "literal-triple-dquote", "``${x}``": "literal-dollar-brace",
             "-->": "xml-comment-end", "</summary>": "closing-tag", "\\n": "backslash-n",
         }[t]
         for t in tokens
